@@ -170,19 +170,30 @@ def run_check(pid, spec, args, seed, work, t0):
 
     # build everything first (sequentially per distinct binary, in parallel across binaries)
     bins = {}
+    build_failures = []
     need = sorted({(j["pkg"], j.get("toolchain", "go"), bool(j.get("race")), j.get("kind") == "fuzz") for j in jobs if j.get("kind") != "exec"})
     for s in spec.get("prebuild", []):
         run_prebuild(s, staged, work)
     with concurrent.futures.ThreadPoolExecutor(max_workers=4) as ex:
         futs = {ex.submit(build, staged, work, *n): n for n in need}
         for fu, n in futs.items():
-            bins[n] = fu.result()
+            try:
+                bins[n] = fu.result()
+            except RuntimeError as e:
+                # one harness package not building (an internal signature it leans on changed) must not silence
+                # the jobs of the other packages: they still run, and a violation they find is still a violation.
+                build_failures.append(str(e))
+                bins[n] = None
     log("staged+built in %.1fs" % (time.time() - t0))
+    if build_failures and all(b is None for b in bins.values()):
+        raise RuntimeError(build_failures[0])
 
     procs = []
     for jidx, j in enumerate(jobs):
         n = (j["pkg"], j.get("toolchain", "go"), bool(j.get("race")), j.get("kind") == "fuzz")
         binp = bins.get(n)
+        if binp is None and j.get("kind") != "exec":
+            continue
         cfg = j[tier] if tier in j else j.get("quick")
         shards = cfg.get("shards", 1)
         if replay:
@@ -248,6 +259,8 @@ def run_check(pid, spec, args, seed, work, t0):
 
     # ---- classify --------------------------------------------------------
     violations, inconclusive = [], []
+    for bf in build_failures:
+        inconclusive.append("harness build: " + bf[-1500:])
     merged = {"evaluations": 0, "fp": set(), "classes": {}, "samples": [], "excluded": {}, "known_hits": {},
               "extra": {}, "requested": 0, "executed": 0}
     per_job = {}
